@@ -241,9 +241,11 @@ def _trigger_closure(col: Collector, rule="C01.R2"):
                     facts = f"a path returns {S.show(v)}"
                 continue
             recognised += 1
-            mi = S.match(m["ids"], S.mcall(S.SELF, "find_taskids", S.V("start")))
+            mis = [S.match(a_, S.mcall(S.SELF, "find_taskids", S.V("start"))) for a_ in S.alts(m["ids"])]
+            mi = mis[0] if all(x is not None for x in mis) else None
             if mi is not None and m["g"] == ():
-                _start_param_ok(col, rule, s, q, mi["start"], "start-passed-through", s.loc(r))
+                st_ = S.mk_alt([x["start"] for x in mis])
+                _start_param_ok(col, rule, s, q, st_, "start-passed-through", s.loc(r))
             elif m["g"] != ():
                 ok, facts = False, f"filtered by {[S.show(c) for _, c in m['g']]}"
             else:
